@@ -40,12 +40,14 @@ s = s[:a] + t121 + t122 + s[b:]
 # ---- 14
 metas = []
 for p in sorted(glob.glob(f'{root}/seeded/*/meta.json')):
-    metas.append(json.load(open(p)))
+    m = json.load(open(p))
+    m['dir'] = os.path.basename(os.path.dirname(p))
+    metas.append(m)
 rows = ['| seeded change | what it changes | needs to manifest | caught by | missed by | strengthening it led to |', '|---|---|---|---|---|---|']
 for m in metas:
     caught = '; '.join(f'{k}: {v}' for k, v in m['caught_by'].items()) or '-'
     missed = '; '.join(f'{k}: {v}' for k, v in m['missed_by'].items()) or '-'
-    rows.append(f"| `seeded/{m['property']}` | `{cell(m['files_changed'])}`: {cell(m['change'])} | {cell(m['needs_to_manifest'])} | {cell(caught)} | {cell(missed)} | {cell(m['strengthening'] or '-')} |")
+    rows.append(f"| `seeded/{m['dir']}` | `{cell(m['files_changed'])}`: {cell(m['change'])} | {cell(m['needs_to_manifest'])} | {cell(caught)} | {cell(missed)} | {cell(m['strengthening'] or '-')} |")
 hdr = s.index('## 14. Seeded changes')
 intro_end = s.index('\n\n', s.index('and the table below', hdr)) + 2 if 'and the table below' in s[hdr:] else hdr
 t14 = '\n'.join(rows) + '\n'
